@@ -62,6 +62,8 @@ SCENARIOS = {
     'samekey_error_stream': dict(callers=[('read', 'm:p1'), ('read', 'm:p1'), ('read', 'm:p1')], errors=[1, 2], streaming=True),
     'two_unknown_error_stream': dict(callers=[('foo', 'm:p1'), ('foo', 'm:p1')], streaming=True),
     'samekey_change_error': dict(callers=[('change', 'm:p2'), ('change', 'm:p2')], errors=[1], updates=2),
+    # error updates are asynchronous messages too: they never answer a request, also not an experimental one
+    'unknown_errupdate': dict(callers=[('foo', 'm:p1'), ('read', 'm:p2')], xreply=True, errupd_before_reply=True),
     # a request that timed out must not block a later request with the same key
     'timeout_then_same': dict(callers=[('read', 'm:p1'), ('read', 'm:p1', 11.5)], ignore=[1]),
 }
